@@ -11,8 +11,9 @@ Decides:
 (C) `_CompressionMiddleware.process_response` (guards evaluated): pre-compressed => the body is not
     compressed again; both branches stamp the header chosen by the same flag with the same value; the
     zstd / gzip branches use the library (and gzip framing) the header announces; no codec => untouched;
-(D) `_pick_response_encoding`, evaluated on seven decisive header pairs: VGI header first, client order
-    (not server order), identity-first => none, no overlap => none, header kind follows the list used.
+(D) `_pick_response_encoding`, evaluated on seven named header pairs and on the full product of parsed preference
+    lists (distinct members of {zstd, gzip, identity}, length <= 2, both headers) x the four server encode sets,
+    against a reference from the property text (chosen codec and which header announces it).
 """
 
 from __future__ import annotations
@@ -305,3 +306,45 @@ def run(ctx: Ctx) -> None:
         okc = codec == want and (flag is None or bool(hflag) == flag)
         ctx.check(okc, "RF-TABLE", f"negotiation:{inst}", pick, None, ok=f"custom={list(cus)} standard={list(std)} can={list(levels)} -> {codec}" + ("" if flag is None else f", custom header={bool(hflag)}"),
                   bad=f"custom={list(cus)} standard={list(std)} can={list(levels)} -> ({codec}, custom header={hflag}); expected {want}" + ("" if flag is None else f" on the {'custom' if flag else 'standard'} header"))
+
+    # ---- exhaustive product: every pair of parsed preference lists (distinct members, length <= 2) x every server
+    # encode set, against a reference written from the property text.  parse_encoding_list hands the function
+    # duplicate-free lists without unknown tokens, so header strings with duplicates / unknown tokens / q-parameters
+    # reduce to these shapes.  Reference:
+    #   order  = custom ++ [e for e in standard if e not in custom]          (VGI header first, client order)
+    #   chosen = first e in order with e == identity -> none | e producible -> e ; none if exhausted
+    #   custom-header = chosen in custom and chosen not in standard            (a coding the generic header also
+    #                   offered is announced on Content-Encoding; only a coding offered solely via X-VGI-Accept-
+    #                   Encoding is announced on X-VGI-Content-Encoding).  Not compared when nothing is chosen.
+    import itertools
+
+    members = (Z, G, I)
+    lists = [()] + [(a,) for a in members] + [(a, b) for a in members for b in members if a != b]
+    ex = Explorer(ctx, pick)
+    ks, kc = txt(std_c[0]), txt(cus_c[0])
+    for levels in (FD({}), FD({Z: 1}), FD({G: 6}), both):
+        tag = "+".join(m.name for m in levels) or "none"
+        bad_codec = bad_flag = None
+        n = 0
+        for cus, std in itertools.product(lists, lists):
+            n += 1
+            o = ex.run({"Encoding": E, "self._levels": levels, ks: std, kc: cus})
+            got = {r[1] for r in o.returns}
+            if o.undecided or len(got) != 1 or any(v is TOP or not isinstance(v, tuple) or len(v) != 2 for v in got):
+                raise AnalysisError(f"C19: _pick_response_encoding not evaluable for custom={list(cus)} standard={list(std)} can={tag}")
+            codec, hflag = next(iter(got))
+            want = None
+            for e in list(cus) + [x for x in std if x not in cus]:
+                if e == I:
+                    break
+                if e in levels:
+                    want = e
+                    break
+            if codec != want and bad_codec is None:
+                bad_codec = f"custom={list(cus)} standard={list(std)} -> {codec}, expected {want}"
+            if want is not None and codec == want and bool(hflag) != (want in cus and want not in std) and bad_flag is None:
+                bad_flag = f"custom={list(cus)} standard={list(std)} -> {codec} announced on the {'custom' if hflag else 'standard'} header"
+        ctx.check(bad_codec is None, "RF-TABLE", f"negotiation-product:codec:can={tag}", pick, None, ok=f"{n} header-list pairs agree with the reference choice",
+                  bad=f"server can produce [{tag}]: {bad_codec}")
+        ctx.check(bad_flag is None, "RF-TABLE", f"negotiation-product:header-kind:can={tag}", pick, None, ok=f"{n} header-list pairs announce the coding on the header it was negotiated through",
+                  bad=f"server can produce [{tag}]: {bad_flag}; expected the custom header exactly when the coding was offered only via X-VGI-Accept-Encoding")
